@@ -1,0 +1,56 @@
+//go:build verif
+// +build verif
+
+// Verification hook (property C13): a king's create-group context collecting the parent group's
+// signature pieces through the node's own tryRecoverParentGroupSig. Add-only; -tags verif only.
+package group_create
+
+import (
+	"com.tuntun.rangers/node/src/common"
+	"com.tuntun.rangers/node/src/consensus/groupsig"
+	"com.tuntun.rangers/node/src/consensus/model"
+	"com.tuntun.rangers/node/src/core"
+	"com.tuntun.rangers/node/src/middleware/types"
+)
+
+type verifC13Chain struct {
+	core.BlockChain // only TopBlock is used
+	top             uint64
+}
+
+func (c *verifC13Chain) TopBlock() *types.BlockHeader { return &types.BlockHeader{Height: c.top} }
+
+type VerifC13ParentCtx struct{ p *groupCreateProcessor }
+
+// VerifC13NewParentCtx: the king (a member of the parent group) waits for the parent group's pieces on
+// the header hash curHash of the group it proposes.
+func VerifC13NewParentCtx(parentMembers []groupsig.ID, gpk groupsig.Pubkey, king groupsig.ID, curHash common.Hash) *VerifC13ParentCtx {
+	VerifDKGInit()
+	gid := *groupsig.NewIDFromPubkey(gpk)
+	parent := model.NewGroupInfo(gid, gpk, &model.GroupInitInfo{GroupHeader: &types.GroupHeader{}, GroupMembers: parentMembers})
+	p := &groupCreateProcessor{}
+	p.minerInfo.ID = king
+	p.blockChain = &verifC13Chain{top: 20}
+	baseCtx := newCreateGroupBaseInfo(parent, &types.BlockHeader{Height: 10, Hash: common.BytesToHash([]byte("base block"))}, &types.Group{Id: gid.Serialize()}, nil)
+	p.context = newCreateGroupContext(baseCtx, []groupsig.ID{king}, true, 20)
+	p.context.groupInitInfo = &model.GroupInitInfo{GroupHeader: &types.GroupHeader{Hash: curHash}, GroupMembers: []groupsig.ID{}}
+	p.context.status = waitingSign
+	return &VerifC13ParentCtx{p}
+}
+
+// Piece hands one (already verified) piece to tryRecoverParentGroupSig.
+func (v *VerifC13ParentCtx) Piece(msg *model.ParentGroupConsensusSignMessage) (bool, string) {
+	ok, err := v.p.tryRecoverParentGroupSig(msg)
+	if err != nil {
+		return ok, err.Error()
+	}
+	return ok, ""
+}
+
+func (v *VerifC13ParentCtx) ParentGroupSign() groupsig.Signature {
+	return v.p.context.groupInitInfo.ParentGroupSign
+}
+
+func (v *VerifC13ParentCtx) GeneratorRecovered() bool {
+	return v.p.context.groupSignGenerator.SignRecovered()
+}
